@@ -31,12 +31,13 @@ for _f in sorted(glob.glob(os.path.join(_here, "propdefs", "C*.py"))):
     PROPS[_n] = _m.PROP
 
 # ---- shared "purity" pass (harness/purity.cpp): call-history exploration of the stateless API of a property
-PURITY_PROPS = ["C01", "C02", "C06", "C07", "C08", "C10", "C11", "C13", "C14", "C15", "C16", "C17", "C18", "C19"]
+PURITY_PROPS = ["C01", "C02", "C06", "C07", "C08", "C10", "C11", "C12", "C13", "C14", "C15", "C16", "C17", "C18", "C19", "C20"]
 PURITY_NOTE = (" A shared purity pass (harness/purity.cpp) additionally executes all call sequences of length 2 and 3 over argument variants "
                "that keep shapes and addresses but change contents or one parameter, each in a fresh thread: every result must be bit-identical "
                "to the same call made first in a fresh thread (memo tables keyed by pointer, length or a subset of the parameters; length variants inside one power-of-two bucket; construct-use-destroy idioms of the stateful classes), "
                "and every call must leave the floating-point control state of the calling thread (rounding mode, FTZ / DAZ) unchanged. "
-               "Homogeneity: for the linear / quadratic / scale-free entry points of the property f(2^k x) must equal 2^(k*degree) f(x) bit for bit, k in {+-40, +-100, +-300} (absolute thresholds, floors and flushes inside scale-free computations).")
+               "Homogeneity: for the linear / quadratic / scale-free entry points of the property f(2^k x) must equal 2^(k*degree) f(x) bit for bit, k in {+-40, +-100, +-300} (absolute thresholds, floors and flushes inside scale-free computations). "
+               "Inputs: arrays passed to the entry points of the property are bit-identical and at the same address after the call.")
 for _pid in PURITY_PROPS:
     if _pid in PROPS:
         _pp = dict(name="purity", harness="purity.cpp", args=["--prop", _pid], shards=4)
